@@ -23,7 +23,7 @@ RULE_TEXT = ('runs = seeded random suite hierarchies (depth <= 3, <= 3 sub-suite
              'file); a fixed sweep assigns every verdict to a case of a one-suite and of a two-level hierarchy. Each '
              'plan runs with both reporters. Non-trivial = >= 2 cases or a structural fault; distinct = (hierarchy '
              'shape, listing styles, multiset of endings, structural fault).')
-REACH_PROBES = ['case_listed_twice_in_one_suite', 'case_listed_twice_ends_differently', 'section_reopened', 'suites_by_glob_of_directories', 'suites_by_glob_of_files', 'ending_processor_fails', 'verdict_PASS', 'verdict_FAIL', 'verdict_XFAIL', 'verdict_XPASS', 'verdict_SKIPPED',
+REACH_PROBES = ['launched_with_directory_argument', 'launched_from_another_directory', 'case_listed_twice_in_one_suite', 'case_listed_twice_ends_differently', 'section_reopened', 'suites_by_glob_of_directories', 'suites_by_glob_of_files', 'ending_processor_fails', 'verdict_PASS', 'verdict_FAIL', 'verdict_XFAIL', 'verdict_XPASS', 'verdict_SKIPPED',
                 'verdict_VALIDATION_ERROR', 'verdict_HARD_ERROR', 'verdict_INTERNAL_ERROR', 'verdict_SYNTAX_ERROR',
                 'verdict_FILE_ACCESS_ERROR', 'ending_act_syntax', 'ending_unreadable', 'ending_timeout', 'all_ok',
                 'some_unsuccessful', 'sub_suite', 'depth_3', 'glob_listing', 'directory_reference', 'invalid_twice',
@@ -172,7 +172,12 @@ def gen_hierarchy(g, force_subs=False):
 
 
 def _plan(seed, tier, g, h, fault, sweep):
-    return {'format': 1, 'property': PROPERTY, 'engine': 'c16', 'run_seed': seed, 'tier': tier,
+    # how the run is launched: the root suite named as a file (from its directory), as the directory that holds it
+    # (default suite file), or from elsewhere
+    launch = kernel.stream(seed, 'launch').choice([None, None, 'dir', 'elsewhere'])
+    if launch == 'dir':
+        h['root']['file'] = 'exactly.suite'
+    return {'launch': launch, 'format': 1, 'property': PROPERTY, 'engine': 'c16', 'run_seed': seed, 'tier': tier,
             'knobs': {'mem_buff_size': g.choice([1, 8192])}, 'entry': 'cli', 'hierarchy': h, 'struct_fault': fault,
             'sweep': sweep}
 
@@ -396,6 +401,7 @@ def execute(plan, scratch):
     runs = {}
     digests = []
     sim_seconds = 0.0
+    os.makedirs(os.path.join(w.home, 'zstart'), exist_ok=True)
     before = w.snapshot(('home',))
     # at most one case whose sandbox cannot be created: the n-th sandbox creation of the run fails
     resolver_fault = None
@@ -411,9 +417,12 @@ def execute(plan, scratch):
     for rep in ('progress', 'junit'):
         p2 = dict(plan, procs=procs, faults=[dict(f) for f in faults], fsfaults=fsfaults, resolver_fault=resolver_fault)
         sim = kernel.Sim(p2, w)
-        argv = ['suite'] + (['--reporter', 'junit'] if rep == 'junit' else []) + [plan['hierarchy']['root']['file']]
+        launch = plan.get('launch')
+        root_arg = {'dir': '.', 'elsewhere': os.path.join('..', plan['hierarchy']['root']['file'])}.get(
+            launch, plan['hierarchy']['root']['file'])
+        argv = ['suite'] + (['--reporter', 'junit'] if rep == 'junit' else []) + [root_arg]
         with patches.installed(sim):
-            res = host.run_cli(sim, argv, tap=True)
+            res = host.run_cli(sim, argv, tap=True, cwd=os.path.join(w.home, 'zstart') if launch == 'elsewhere' else None)
             leftover = w.tmp_entries()
         # bracket spawn events with the progress lines: (seq of out-events, seq of spawns)
         stream = []
@@ -467,6 +476,8 @@ def _probes(plan, hist):
             pr['glob_listing'] = 1
         if any(s['ref'] == 'dir' for s in h.values()):
             pr['directory_reference'] = 1
+        if plan.get('launch'):
+            pr['launched_' + {'dir': 'with_directory_argument', 'elsewhere': 'from_another_directory'}[plan['launch']]] = 1
         if has_double_listing(plan):
             pr['case_listed_twice_in_one_suite'] = 1
             if any(c['ending'] == 'FLAKY' for c in ex):
@@ -546,6 +557,10 @@ def oracle(plan, hist):
 
 def _judge(plan, hist, ex):
     V = []
+    prefix = '..' if plan.get('launch') == 'elsewhere' else ''
+
+    def _P(f):  # the name of a case as the reporters give it: relative to the directory Exactly was started in
+        return os.path.normpath(os.path.join(prefix, f))
 
     def bad(rule, expected_, observed, **kw):
         V.append(dict(kw, rule='C16.' + rule, expected=expected_, observed=observed))
@@ -597,7 +612,7 @@ def _judge(plan, hist, ex):
     if len(parsed) == 0 and ex and re.search(r'^case\b', pg['stdout'], re.M):
         raise kernel.HarnessError('cannot parse the progress lines: %r' % pg['stdout'][:300])
     got = [(os.path.normpath(p[0]), p[1]) for p in parsed]
-    want = [(os.path.normpath(c['file']), c['ident']) for c in ex]
+    want = [(_P(c['file']), c['ident']) for c in ex]
     if [g_[0] for g_ in got] != [w_[0] for w_ in want]:
         bad('progress.cases_named_once_in_order', [w_[0] for w_ in want], [g_[0] for g_ in got])
     elif got != want:
@@ -620,13 +635,13 @@ def _judge(plan, hist, ex):
     suites = [root] if root.tag == 'testsuite' else list(root.iter('testsuite'))
     tcs = [tc for s in suites for tc in s.findall('testcase')]
     names = sorted(os.path.normpath(tc.get('name')) for tc in tcs)
-    if names != sorted(os.path.normpath(c['file']) for c in ex):
+    if names != sorted(_P(c['file']) for c in ex):
         bad('junit.same_cases', sorted(c['file'] for c in ex), names)
         return V
-    by_file = {os.path.normpath(c['file']): c for c in ex}
+    by_file = {_P(c['file']): c for c in ex}
     doc_order_ = [os.path.normpath(tc.get('name')) for tc in tcs]
     by_elem = {}
-    if doc_order_ == [os.path.normpath(c['file']) for c in ex]:
+    if doc_order_ == [_P(c['file']) for c in ex]:
         by_elem = {id(tc): c for tc, c in zip(tcs, ex)}  # (a file listed twice has one record per processing)
 
     def model_of(tc):
@@ -653,7 +668,7 @@ def _judge(plan, hist, ex):
                     {'element': has}, ending=c['ending'])
     # the order of cases in the document is the order of execution
     doc_order = [os.path.normpath(tc.get('name')) for tc in tcs]
-    if doc_order != [os.path.normpath(c['file']) for c in ex]:
+    if doc_order != [_P(c['file']) for c in ex]:
         bad('junit.same_order', [c['file'] for c in ex], doc_order)
     # both reporters: same identifiers
     parsed_j = parse_progress(ju['stream'], 'err')
